@@ -12,11 +12,7 @@ use meshless_voronoi::{ConvexCell, ConvexCellMarker, VoronoiIntegrator, WithFace
 use std::collections::BTreeMap;
 
 fn masks_upto(n: usize, max_n: usize) -> Vec<Option<Vec<bool>>> {
-    let mut m: Vec<Option<Vec<bool>>> = vec![None];
-    if n <= max_n {
-        m.extend(all_masks(n).into_iter().map(Some));
-    }
-    m
+    masks_menu(n, max_n)
 }
 
 // ---------------------------------------------------------------------------------------------
@@ -428,7 +424,7 @@ pub fn eval_c15(st: &State) -> Eval {
         return e;
     }
     let oc = ocells(st);
-    for mask in masks_upto(n, 3) {
+    for mask in masks_menu_min(n, 3) {
         let ms = mask.as_ref().map(|m| mask_str(m)).unwrap_or_else(|| "none".to_string());
         let case = format!("{}|mask={}", st.id, ms);
         let extra = [("mask", ms.clone())];
